@@ -5573,3 +5573,56 @@ func ruleLimitBreak(c *Ctx, r *Rep) {
 		r.Undecided("limitbreak:census", token.NoPos, "no shipped definition of limit contains a break")
 	}
 }
+
+// ---------------------------------------------------------------------------------------------------------------------
+// R-C16-nullisvalue: the input layer never takes a decoded null for "nothing".
+
+func init() {
+	reg(&Rule{ID: "R-C16-nullisvalue", Props: []string{"C16", "C12"}, Floor: 0,
+		Doc: "no method of an input iterator of the command compares a value of type any with nil: a decoded null is a value like any other (a YAML document `null`, a JSON `null` in a stream), and a test that takes it for 'no document' drops it",
+		Run: ruleNullIsValue})
+	addDecided("C16", " No input iterator compares a decoded value with nil (R-C16-nullisvalue).")
+}
+
+func ruleNullIsValue(c *Ctx, r *Rep) {
+	p := c.Cli
+	info := p.TypesInfo
+	n, bad := 0, 0
+	for _, fd := range c.Decls(p) {
+		if fd.Recv == nil {
+			continue
+		}
+		tn := recvTypeName(fd)
+		if !strings.HasSuffix(tn, "InputIter") && !strings.HasSuffix(tn, "Iter") && tn != "jsonStream" {
+			continue
+		}
+		n++
+		ast.Inspect(fd.Body, func(m ast.Node) bool {
+			b, ok := m.(*ast.BinaryExpr)
+			if !ok || (b.Op != token.EQL && b.Op != token.NEQ) {
+				return true
+			}
+			for _, pr := range [][2]ast.Expr{{b.X, b.Y}, {b.Y, b.X}} {
+				if id, ok := unparen(pr[1]).(*ast.Ident); !ok || id.Name != "nil" {
+					continue
+				}
+				t := info.TypeOf(pr[0])
+				if t == nil {
+					continue
+				}
+				if it, ok := t.Underlying().(*types.Interface); ok && it.NumMethods() == 0 {
+					if _, named := t.(*types.Named); !named {
+						bad++
+						r.Bad("nullisvalue:"+declKey(fd)+":"+c.Src(b), b.Pos(), "%s compares the value `%s` with nil: a decoded null is a value, and an iterator that takes it for the absence of a document drops it (`gojq -n --yaml-output null | gojq --yaml-input .` prints nothing)", declKey(fd), c.Src(pr[0]))
+					}
+				}
+			}
+			return true
+		})
+	}
+	if n == 0 {
+		r.Undecided("nullisvalue:census", token.NoPos, "no input iterator methods found in the command")
+	} else if bad == 0 {
+		r.OK("nullisvalue:none", token.NoPos, "%d methods of input iterators examined: none compares a decoded value with nil", n)
+	}
+}
